@@ -66,6 +66,8 @@ def inline_md(items, table=False):
             s.append('\\' + it.ch + it.tail)
         elif k == 'entity':
             s.append(it.src)
+        elif k == 'emphsrc':
+            s.append(it.s)
         else:
             raise AssertionError(k)
     return ''.join(s)
